@@ -11,6 +11,19 @@
 // with the sets of allowed observations the spec attached to the step.  Nothing is
 // ever judged by elapsed time; a run that does not quiesce is inconclusive.
 //
+// Steps: read c / run / rel i / close o / cancel / relall / finish (stepped, observed at quiescence
+// after every step); freerun (no gates, every consumer drains concurrently); race-start, race-close,
+// race-cancel (arg = repetitions on fresh instances: concurrent first advances / an unsynchronised
+// stop against free-running consumers - the Go scheduler picks the interleaving).
+//
+// Oracles (generic, parameterised by the step's allowed sets): every user-function call is for an
+// input item not seen before; every output is f(input item), not output before and in `may`; the end
+// of an output only for consumers in `eofs`; a Close has returned; consumers in `must` are not
+// blocked (after a stop, or when no user function is held); Run has returned when `run` = must; with
+// `full` the delivered bag equals the input bag (and input order where cfg.ord); with `leak` and no
+// user function held the census (goroutines with a tychoish/fun frame, minus the baseline taken at
+// the start of the behaviour, minus the driver's own operations) is empty.
+//
 // Items are identified by ids 1..n; the input value of item i is 100+i and a
 // transforming stage (Map) outputs 1100+i, so lost, duplicated, invented and
 // untransformed values are all distinguishable.
@@ -456,6 +469,109 @@ func (w *world) race(op string, reps int, seed int) string {
 	return ""
 }
 
+// raceStart repeats, reps times on fresh instances, an undisturbed run in which every advance is
+// concurrent from the very first one: two goroutines per output (ReadOne is documented as safe
+// for concurrent use on these channel-backed outputs) - or the worker group's own workers - are
+// released together and drain to the end; user functions return at once.  After each repetition
+// the delivered bag must equal the input bag (C01).  Returns "" / an inconclusive reason / "!key|what".
+func (w *world) raceStart(reps int) string {
+	n := w.cfg.N
+	for r := 0; r < reps; r++ {
+		sub := &world{cfg: w.cfg, rec: &rt.Recorder{}, g: rt.NewGates(), exited: map[int]int{}, released: map[int]bool{}, cons: map[int]*consumer{}}
+		sub.pctx, sub.cancel = context.WithCancel(context.Background())
+		if err := sub.build(); err != nil {
+			return err.Error()
+		}
+		var wg sync.WaitGroup
+		var mu sync.Mutex
+		got := map[int]int{}
+		// a spinning barrier: the readers leave it within nanoseconds of each other, which is what
+		// makes their FIRST advances (the lazy setup) overlap
+		var start atomic.Bool
+		if w.cfg.Out == 0 {
+			sub.startRun()
+			for !sub.runOp.Done() {
+				runtime.Gosched()
+			}
+		} else {
+			for c := 1; c <= sub.numConsumers(); c++ {
+				for twin := 0; twin < 2; twin++ {
+					if w.cfg.C == "bufchan" && twin == 1 {
+						continue
+					}
+					var ch <-chan int
+					var it *fun.Iterator[int]
+					if w.cfg.C == "bufchan" {
+						ch = sub.source().BufferedChannel(sub.pctx, w.cfg.Cap)
+					} else {
+						it = sub.outs[sub.outOf(c)]
+					}
+					wg.Add(1)
+					go func() {
+						defer wg.Done()
+						for i := 0; !start.Load(); i++ {
+							if i%1024 == 1023 {
+								runtime.Gosched() // never starve the driver when there are fewer Ps than readers
+							}
+						}
+						for {
+							var v int
+							if ch != nil {
+								x, ok := <-ch
+								if !ok {
+									return
+								}
+								v = x
+							} else {
+								x, err := it.ReadOne(sub.pctx)
+								if err != nil {
+									return
+								}
+								v = x
+							}
+							mu.Lock()
+							got[sub.outID(v)]++
+							mu.Unlock()
+						}
+					}()
+				}
+			}
+			start.Store(true)
+			wg.Wait() // finite input: every reader reaches the end; a hang here ends as exit 2 (timeout), never as a verdict
+		}
+		sub.cancel()
+		if w.cfg.Fn {
+			cnt := map[int]int{}
+			sub.mu.Lock()
+			for _, id := range sub.entered {
+				cnt[id]++
+			}
+			sub.mu.Unlock()
+			for i := 1; i <= n; i++ {
+				if cnt[i] != 1 {
+					return fmt.Sprintf("!concurrent-start/item-not-processed-once|repetition %d: item %d was handed to the user function %d times", r, i, cnt[i])
+				}
+			}
+		}
+		if w.cfg.Out > 0 {
+			for id, c := range got {
+				if id < 1 || id > n {
+					return fmt.Sprintf("!concurrent-start/invented|repetition %d: a value that is no f(input item) was delivered (id %d)", r, id)
+				}
+				if c > 1 {
+					return fmt.Sprintf("!concurrent-start/duplicate|repetition %d: item %d was delivered %d times", r, id, c)
+				}
+			}
+			for i := 1; i <= n; i++ {
+				if got[i] != 1 {
+					return fmt.Sprintf("!concurrent-start/item-lost|repetition %d: item %d was delivered %d times (%d of %d items arrived)", r, i, got[i], len(got), n)
+				}
+			}
+		}
+	}
+	return ""
+}
+
 func (w *world) consumer(c int) *consumer {
 	if x, ok := w.cons[c]; ok {
 		return x
@@ -788,6 +904,14 @@ func replay(in input, trace bool) (result map[string]any) {
 			}
 			for c := 1; c <= w.numConsumers(); c++ {
 				w.free = append(w.free, w.startDrain(c))
+			}
+		case "race-start":
+			if why := w.raceStart(st.Arg); why != "" {
+				if strings.HasPrefix(why, "!") {
+					parts := strings.SplitN(why[1:], "|", 2)
+					return fail(k, parts[0], parts[1], obs{Step: name})
+				}
+				return inconclusive(in, why)
 			}
 		case "race-close", "race-cancel":
 			if why := w.race(st.Op, st.Arg, in.N); why != "" {
